@@ -20,7 +20,7 @@ theorem encode_accepts_iff_wellformed (si : Bool) (t : List (PyStr × PyVal)) :
 /-- **canonical form**: the output is the serialisation of the mirrored CST — each tag's bytes, the
 shortest definite length, the value, in mapping order -/
 theorem encode_canonical (si : Bool) (t : List (PyStr × PyVal)) (b : Bytes) (h : encode si t = .ok b)
-    (hlen : b.length < 256 ^ 127) : ∃ items, b = printItems items ∧ Mirror si t items ∧ ∀ i ∈ items, WF si i :=
+    (hlen : si = false → b.length < 256 ^ 127) : ∃ items, b = printItems items ∧ Mirror si t items ∧ ∀ i ∈ items, WF si i :=
   encodeItems_ok si t b h hlen
 
 /-- the length the encoder writes: one byte up to 127, otherwise `0x80 + k` and the `k`-byte minimal
@@ -31,7 +31,7 @@ theorem length_field_shortest (n : Nat) (hn : 128 ≤ n) (hbig : n < 256 ^ 127) 
     (∀ m, lenField true m = none ↔ m > 255) := by
   have hs : ∃ l, lenField false n = some l := lenField_some false n (by intro h; cases h)
   obtain ⟨l, hl⟩ := hs
-  have hc := lenField_canonical false n l hbig hl
+  have hc := lenField_canonical false n l (fun _ => hbig) hl
   obtain ⟨a, b⟩ := byteLen_spec n (by omega)
   refine ⟨by rw [hl, hc], ?_, a, b, ?_, ?_⟩
   · have : ¬ n < 128 := by omega
@@ -43,7 +43,7 @@ theorem length_field_shortest (n : Nat) (hn : 128 ≤ n) (hbig : n < 256 ^ 127) 
 values as bytes — the nested fold of the mirrored CST, last occurrence winning when two names denote the
 same tag; and the flattened view likewise -/
 theorem roundtrip (fl si : Bool) (t : List (PyStr × PyVal)) (b : Bytes) (h : encode si t = .ok b)
-    (hlen : b.length < 256 ^ 127) :
+    (hlen : si = false → b.length < 256 ^ 127) :
     ∃ items, Mirror si t items ∧ decode fl si b = .ok b.length (absInto fl [] items) := by
   obtain ⟨items, e, m, w⟩ := encode_canonical si t b h hlen
   refine ⟨items, m, ?_⟩
